@@ -1,5 +1,6 @@
 import Canopy.Proof.StoreState
 import Canopy.Proof.Indexer
+import Canopy.Gen.Store
 import Canopy.Props.C19
 /-!
 # C10 — store read semantics and immutability of committed history
@@ -217,10 +218,45 @@ versioned key space (committed in the same batch, pruned by `Rollback`), the rea
 keyed by height for the whole process. `IInv K IK s m`: the state invariant of C10 plus: every entry of
 the indexer partition is a key of `IK` (prefix-free, `WFKeys IK`) committed at a version in `[1, version]`. -/
 
+/-- the block cache as the source has it: created with a `string` key; `IndexBlock` adds under the
+block's hash key; each of the three by-height readers FIRST resolves `height → hashKey` through its own
+view (`t.db.Get(t.blockHeightKey(height))`) and only then touches the cache, always under
+`string(hashKey)`; only `GetBlockByHeight` adds (full blocks); `GetBlockByHash` bypasses the cache and
+`GetQCByHeight` goes through `GetBlockByHeight`. -/
+theorem block_cache_keyed_by_hash_key :
+    Gen.Store.blockCacheDecl = "lru.New[string, *lib.BlockResult](64)" ∧
+    (Gen.Store.blockCacheUse.filter (·.1 = "IndexBlock")).map (·.2) =
+      ["blockCache.Add(string(t.blockHashKey(b.BlockHeader.Hash)), b)"] ∧
+    (Gen.Store.blockCacheUse.filter (·.1 = "GetBlockByHeight")).map (·.2) =
+      ["t.db.Get(t.blockHeightKey(height))", "t.getBlock(hashKey, true)", "blockCache.Get(string(hashKey))",
+       "t.getBlock(hashKey, true)", "blockCache.Add(string(hashKey), block)"] ∧
+    (Gen.Store.blockCacheUse.filter (·.1 = "GetBlockHeaderByHeight")).map (·.2) =
+      ["t.db.Get(t.blockHeightKey(height))", "blockCache.Get(string(hashKey))", "t.getBlock(hashKey, false)"] ∧
+    (Gen.Store.blockCacheUse.filter (·.1 = "getBlockForPage")).map (·.2) =
+      ["t.db.Get(t.blockHeightKey(height))", "blockCache.Get(string(hashKey))", "t.getBlock(hashKey, transactions)"] ∧
+    (Gen.Store.blockCacheUse.filter (·.1 = "GetBlockByHash")).map (·.2) = ["t.getBlock(t.blockHashKey(hash), true)"] ∧
+    (Gen.Store.blockCacheUse.filter (·.1 = "GetQCByHeight")).map (·.2) = ["t.GetBlockByHeight(height)"] := by decide
+
+/-- the cache keying of the model is read off the source: by hash key exactly when the cache is created
+with a `string` key and every reader looks the height up in its own view before any cache call -/
+def cacheKeyingOfSource : CacheKeying :=
+  if Gen.Store.blockCacheDecl = "lru.New[string, *lib.BlockResult](64)" ∧
+     (Gen.Store.blockCacheUse.filter (·.1 = "IndexBlock")).map (·.2) =
+       ["blockCache.Add(string(t.blockHashKey(b.BlockHeader.Hash)), b)"] ∧
+     (["GetBlockByHeight", "GetBlockHeaderByHeight", "getBlockForPage"].all fun r =>
+       ((Gen.Store.blockCacheUse.filter (·.1 = r)).map (·.2)).head? = some "t.db.Get(t.blockHeightKey(height))" &&
+       ((Gen.Store.blockCacheUse.filter (·.1 = r)).map (·.2)).all fun c =>
+         c == "t.db.Get(t.blockHeightKey(height))" || c == "blockCache.Get(string(hashKey))" ||
+         c == "t.getBlock(hashKey, true)" || c == "t.getBlock(hashKey, false)" || c == "t.getBlock(hashKey, transactions)" ||
+         (r == "GetBlockByHeight" && c == "blockCache.Add(string(hashKey), block)")) = true
+  then .byHashKey else .byHeight
+
+theorem cache_keying_is_by_hash_key : cacheKeyingOfSource = .byHashKey := by decide
+
 /-- every state reached from the empty process by operations over keys of `K` / index keys of `IK` -/
-theorem reachable_iinv (K IK : Bytes → Prop) (hK : WFKeys K) (ops : List IOp) (hops : ∀ op ∈ ops, IOpOK K IK op)
-    (hb : ops.length + 1 < maxVer) : ∃ m, IInv K IK (runIOps {} ops) m := by
-  obtain ⟨m, hi, _⟩ := (IInv.init K IK).run hK ops hops (by simpa using hb) 0 (Nat.le_refl _)
+theorem reachable_iinv (K IK : Bytes → Prop) (hK : WFKeys K) (mode : CacheKeying) (ops : List IOp) (hops : ∀ op ∈ ops, IOpOK K IK op)
+    (hb : ops.length + 1 < maxVer) : ∃ m, IInv K IK (runIOps mode {} ops) m := by
+  obtain ⟨m, hi, _⟩ := (IInv.init K IK).run hK mode ops hops (by simpa using hb) 0 (Nat.le_refl _)
     (fun op _ => by cases op with
       | store o => cases o <;> simp [IKeeps, KeepsHistory]
       | _ => trivial)
@@ -230,39 +266,39 @@ theorem reachable_iinv (K IK : Bytes → Prop) (hK : WFKeys K) (ops : List IOp) 
 DATABASE part of the indexer never changes, whatever happens later (indexing, commits, abandoned
 commits, rollbacks to heights ≥ `v`, any reads): every point read of any key, the per-height
 transaction list, and every block assembled from them. -/
-theorem index_history_immutable (K IK : Bytes → Prop) (hK : WFKeys K) (hIK : WFKeys IK)
+theorem index_history_immutable (K IK : Bytes → Prop) (hK : WFKeys K) (hIK : WFKeys IK) (mode : CacheKeying)
     (hpfx : ∀ h, PfxOK IK (txHeightKey h)) (s : IState) (m : VMap) (hi : IInv K IK s m) (ops : List IOp)
     (hops : ∀ op ∈ ops, IOpOK K IK op) (hver : s.st.version + ops.length + 1 < maxVer)
     (v : Nat) (hv : v ≤ s.st.version) (hkeep : ∀ op ∈ ops, IKeeps v op) :
-    (∀ k, ((runIOps s ops).ro v).getB k = (s.ro v).getB k) ∧
-    (∀ h, ((runIOps s ops).ro v).txsByHeight h = (s.ro v).txsByHeight h) ∧
-    (∀ hk t, ((runIOps s ops).ro v).getBlock hk t = (s.ro v).getBlock hk t) ∧
-    (∀ h, ((runIOps s ops).ro v).dbBlockByHeight h = (s.ro v).dbBlockByHeight h) ∧
-    (∀ h, ((runIOps s ops).ro v).dbQCByHeight h = (s.ro v).dbQCByHeight h) ∧
-    (∀ hash, ((runIOps s ops).ro v).getBlockByHash hash = (s.ro v).getBlockByHash hash) ∧
-    (∀ hash, ((runIOps s ops).ro v).getTxByHash hash = (s.ro v).getTxByHash hash) := by
-  obtain ⟨m', hi', _, hle, _, hag⟩ := hi.run hK ops hops hver v hv hkeep
+    (∀ k, ((runIOps mode s ops).ro v).getB k = (s.ro v).getB k) ∧
+    (∀ h, ((runIOps mode s ops).ro v).txsByHeight h = (s.ro v).txsByHeight h) ∧
+    (∀ hk t, ((runIOps mode s ops).ro v).getBlock hk t = (s.ro v).getBlock hk t) ∧
+    (∀ h, ((runIOps mode s ops).ro v).dbBlockByHeight h = (s.ro v).dbBlockByHeight h) ∧
+    (∀ h, ((runIOps mode s ops).ro v).dbQCByHeight h = (s.ro v).dbQCByHeight h) ∧
+    (∀ hash, ((runIOps mode s ops).ro v).getBlockByHash hash = (s.ro v).getBlockByHash hash) ∧
+    (∀ hash, ((runIOps mode s ops).ro v).getTxByHash hash = (s.ro v).getTxByHash hash) := by
+  obtain ⟨m', hi', _, hle, _, hag⟩ := hi.run hK mode ops hops hver v hv hkeep
   have hmv : maxVer = 18446744073709551615 := rfl
   exact iview_agree hIK hi'.idx hi.idx (by omega) (by omega) (by omega) hag hpfx
 
 /-- **`block_history_immutable`** (database part): the block at any height — by height and by hash,
 header, hash and transaction list — as read by a view at committed version `v`, bypassing the cache -/
-theorem block_history_immutable (K IK : Bytes → Prop) (hK : WFKeys K) (hIK : WFKeys IK)
+theorem block_history_immutable (K IK : Bytes → Prop) (hK : WFKeys K) (hIK : WFKeys IK) (mode : CacheKeying)
     (hpfx : ∀ h, PfxOK IK (txHeightKey h)) (s : IState) (m : VMap) (hi : IInv K IK s m) (ops : List IOp)
     (hops : ∀ op ∈ ops, IOpOK K IK op) (hver : s.st.version + ops.length + 1 < maxVer)
     (v : Nat) (hv : v ≤ s.st.version) (hkeep : ∀ op ∈ ops, IKeeps v op) (h : Nat) (hash : Bytes) :
-    ((runIOps s ops).ro v).dbBlockByHeight h = (s.ro v).dbBlockByHeight h ∧
-    ((runIOps s ops).ro v).getBlockByHash hash = (s.ro v).getBlockByHash hash :=
-  have r := index_history_immutable K IK hK hIK hpfx s m hi ops hops hver v hv hkeep
+    ((runIOps mode s ops).ro v).dbBlockByHeight h = (s.ro v).dbBlockByHeight h ∧
+    ((runIOps mode s ops).ro v).getBlockByHash hash = (s.ro v).getBlockByHash hash :=
+  have r := index_history_immutable K IK hK hIK mode hpfx s m hi ops hops hver v hv hkeep
   ⟨r.2.2.2.1 h, r.2.2.2.2.2.1 hash⟩
 
 /-- **`qc_history_immutable`**: the quorum certificate of any height as read by a view at `v` -/
-theorem qc_history_immutable (K IK : Bytes → Prop) (hK : WFKeys K) (hIK : WFKeys IK)
+theorem qc_history_immutable (K IK : Bytes → Prop) (hK : WFKeys K) (hIK : WFKeys IK) (mode : CacheKeying)
     (hpfx : ∀ h, PfxOK IK (txHeightKey h)) (s : IState) (m : VMap) (hi : IInv K IK s m) (ops : List IOp)
     (hops : ∀ op ∈ ops, IOpOK K IK op) (hver : s.st.version + ops.length + 1 < maxVer)
     (v : Nat) (hv : v ≤ s.st.version) (hkeep : ∀ op ∈ ops, IKeeps v op) (h : Nat) :
-    ((runIOps s ops).ro v).dbQCByHeight h = (s.ro v).dbQCByHeight h :=
-  (index_history_immutable K IK hK hIK hpfx s m hi ops hops hver v hv hkeep).2.2.2.2.1 h
+    ((runIOps mode s ops).ro v).dbQCByHeight h = (s.ro v).dbQCByHeight h :=
+  (index_history_immutable K IK hK hIK mode hpfx s m hi ops hops hver v hv hkeep).2.2.2.2.1 h
 
 /-- the real index keys (32-byte hashes) satisfy the hypotheses -/
 theorem index_keys_wf : WFKeys IdxKey ∧ ∀ h, PfxOK IdxKey (txHeightKey h) := ⟨idxKey_wf, idxKey_pfx⟩
@@ -282,15 +318,15 @@ instance (s s' : IState) (v h : Nat) : Decidable (BlockReadStable s s' v h) := b
 /-- **`block_history_immutable_partial`**: when the cache holds nothing for that height in either state
 the answer is the database part, hence unchanged (the excluded region — a cache entry for the height —
 is exactly where the witnesses below live) -/
-theorem block_history_immutable_partial (K IK : Bytes → Prop) (hK : WFKeys K) (hIK : WFKeys IK)
+theorem block_history_immutable_partial (K IK : Bytes → Prop) (hK : WFKeys K) (hIK : WFKeys IK) (mode : CacheKeying)
     (hpfx : ∀ h, PfxOK IK (txHeightKey h)) (s : IState) (m : VMap) (hi : IInv K IK s m) (ops : List IOp)
     (hops : ∀ op ∈ ops, IOpOK K IK op) (hver : s.st.version + ops.length + 1 < maxVer)
     (v : Nat) (hv : v ≤ s.st.version) (hkeep : ∀ op ∈ ops, IKeeps v op) (h : Nat)
-    (hc : s.cache.lookup h = none) (hc' : (runIOps s ops).cache.lookup h = none) :
-    BlockReadStable s (runIOps s ops) v h := by
+    (hc : s.cache.lookup h = none) (hc' : (runIOps mode s ops).cache.lookup h = none) :
+    BlockReadStable s (runIOps mode s ops) v h := by
   unfold BlockReadStable getBlockByHeight
   rw [hc, hc']
-  exact (block_history_immutable K IK hK hIK hpfx s m hi ops hops hver v hv hkeep h []).1
+  exact (block_history_immutable K IK hK hIK mode hpfx s m hi ops hops hver v hv hkeep h []).1
 
 /-- two blocks committed at heights 1 and 2 (QC + block indexed before each commit) -/
 def twoBlocks : List IOp :=
